@@ -263,6 +263,24 @@ func c12Small() []histmodel.Shape {
 	return append(s, histalpha.Shifted(histmodel.Shapes()))
 }
 
+// c12Tiny is the alphabet of the deepest divergent-store phases: a chain that grows (e02 -> e03 /
+// e03s, marked NotCounterReset inside one chunk), two shapes that are a reset of each other only
+// per bucket (e03 / e03s), a schema change and a staleness marker.
+func c12Tiny() []histmodel.Shape {
+	var out []histmodel.Shape
+	for _, want := range []string{"e02-s0-two/", "e03-s0-grown/", "e03s-s0-shifted/", "e08-s1/", "e29-stale/"} {
+		for _, sh := range c12Small() {
+			if strings.HasPrefix(sh.Name, want) {
+				out = append(out, sh)
+			}
+		}
+	}
+	if len(out) != 5 {
+		panic("c12Tiny: shapes missing")
+	}
+	return out
+}
+
 func c12Alphas() map[string]c12Alpha {
 	m := map[string]c12Alpha{}
 	for _, a := range []c12Alpha{
@@ -270,6 +288,9 @@ func c12Alphas() map[string]c12Alpha {
 		{"small-float", c12Counters(c12Small(), true)},
 		{"small10-int", c12NoCustom(c12Counters(c12Small(), false))},
 		{"small10-float", c12NoCustom(c12Counters(c12Small(), true))},
+		{"tiny-int", c12Counters(c12Tiny(), false)},
+		{"tiny-float", c12Counters(c12Tiny(), true)},
+		{"tiny3-int", c12Counters(c12Tiny()[:3], false)},
 		{"full-int", c12Counters(histalpha.FullShapes(), false)},
 		{"full-float", c12Counters(histalpha.FullShapes(), true)},
 	} {
@@ -294,6 +315,7 @@ func c12Key(l labels.Labels) int {
 
 type c12Stats struct {
 	cases, marked, casesMarked, queries atomic.Int64
+	conflicts, conflictsMarked          atomic.Int64 // cases whose sources disagree on a value (and had a marking)
 	hintsSeen                           c12StringSet
 }
 
@@ -385,6 +407,64 @@ type c12mCase struct {
 	// the previous appender (so chunk headers carry NotCounterReset / CounterReset / unknown as
 	// computed against the previous chunk). Otherwise storage.NewSeriesToChunkEncoder encodes.
 	Cut bool `json:"cut"`
+	// Div (divergent stores; Seq and Place unused): per store, per time slot, the name of the atom
+	// the store holds there ("" = no sample). The stores are independent sources of one series and
+	// may DISAGREE on the value at a timestamp (a corrected late write, diverging replicas /
+	// backfills); the merge returns one of the copies and the hints must be sound for the samples
+	// actually returned.
+	Div [][]string `json:"div,omitempty"`
+}
+
+// c12mContent is what c12mRun merges: per store, per time slot, the atom index held (-1 = none).
+type c12mContent [][]int
+
+// c12mPlaced is the content of the classical cases: sample i of seq sits in the stores of place[i].
+func c12mPlaced(seq, place []int) c12mContent {
+	c := make(c12mContent, 3)
+	for s := range c {
+		c[s] = make([]int, len(seq))
+		for i, a := range seq {
+			c[s][i] = -1
+			if place[i]&(1<<s) != 0 {
+				c[s][i] = a
+			}
+		}
+	}
+	return c
+}
+
+func (c c12mContent) names(al c12Alpha) [][]string {
+	out := make([][]string, len(c))
+	for s := range c {
+		out[s] = make([]string, len(c[s]))
+		for i, a := range c[s] {
+			if a >= 0 {
+				out[s][i] = al.atoms[a].Name
+			}
+		}
+	}
+	return out
+}
+
+// slots lists the time slots populated by at least one store; conflict says whether two stores
+// hold different atoms at one slot.
+func (c c12mContent) slots() (slots []int, conflict bool) {
+	for i := range c[0] {
+		first := -1
+		for s := range c {
+			a := c[s][i]
+			if a < 0 {
+				continue
+			}
+			if first < 0 {
+				first = a
+				slots = append(slots, i)
+			} else if a != first {
+				conflict = true
+			}
+		}
+	}
+	return slots, conflict
 }
 
 // c12EncodeCut encodes samples one per chunk with the head's protocol (memSeries.appendHistogram:
@@ -437,20 +517,27 @@ func c12NewChunkSet(lset labels.Labels, metas []chunks.Meta) *c12ChunkSet {
 	}}}
 }
 
-func c12mRun(r *vx.Run, st *c12Stats, al c12Alpha, seq []int, place []int, cut bool, it *chunkenc.Iterator) {
-	rp := func() any {
-		return c12mCase{Alpha: al.name, Seq: histalpha.Names(al.atoms, seq), Place: place, Cut: cut}
-	}
+func c12mRun(r *vx.Run, st *c12Stats, al c12Alpha, content c12mContent, cut bool, it *chunkenc.Iterator, rp func() c12mCase) {
 	viol := func(sig, msg string) {
-		r.Violation(sig, fmt.Sprintf("sequence %v placement %v cut=%v: %s", histalpha.Names(al.atoms, seq), place, cut, msg), rp())
+		c := rp()
+		if c.Div != nil {
+			r.Violation(sig, fmt.Sprintf("stores (atom per time slot) %q cut=%v: %s", c.Div, cut, msg), c)
+			return
+		}
+		r.Violation(sig, fmt.Sprintf("sequence %v placement %v cut=%v: %s", c.Seq, c.Place, cut, msg), c)
 	}
 	lset := c12Labels(0)
+	// slots holds the time slots at which the merged series must have a sample
+	slots, conflict := content.slots()
+	if conflict {
+		st.conflicts.Add(1)
+	}
 	// encode every store
 	var stores [][]chunks.Meta
-	for s := 0; s < 3; s++ {
+	for s := range content {
 		var samples []chunks.Sample
-		for i, a := range seq {
-			if place[i]&(1<<s) == 0 {
+		for i, a := range content[s] {
+			if a < 0 {
 				continue
 			}
 			h, fh := al.atoms[a].Fresh()
@@ -520,19 +607,20 @@ func c12mRun(r *vx.Run, st *c12Stats, al c12Alpha, seq []int, place []int, cut b
 			viol("merge-samples-error", err.Error())
 			return
 		}
-		if len(full) != len(seq) {
-			viol("merge-samples-count", fmt.Sprintf("merged result has %d samples, want %d", len(full), len(seq)))
+		if len(full) != len(slots) {
+			viol("merge-samples-count", fmt.Sprintf("merged result has %d samples, want %d", len(full), len(slots)))
 			return
 		}
 		check("merge-samples-full"+sfx, full, nil)
 		if st.hintsSeen.add(c12Hints(full)) {
 			r.Distinct("distinct_outcomes", c12Hints(full))
 		}
-		for i := 1; i < len(seq); i++ {
+		for i := 1; i < len(slots); i++ {
+			seekT := c12T(slots[i]) // timestamp of the i-th sample of the merged series
 			*it = ser.Iterator(*it)
-			vt := (*it).Seek(c12T(i))
+			vt := (*it).Seek(seekT)
 			if vt == chunkenc.ValNone {
-				viol("merge-seek-lost", fmt.Sprintf("Seek(%d) found nothing: %v", c12T(i), (*it).Err()))
+				viol("merge-seek-lost", fmt.Sprintf("Seek(%d) found nothing: %v", seekT, (*it).Err()))
 				continue
 			}
 			res, err := c12Drain(*it, vt, asFloat)
@@ -556,9 +644,9 @@ func c12mRun(r *vx.Run, st *c12Stats, al c12Alpha, seq []int, place []int, cut b
 					viol("merge-seek-lost", fmt.Sprintf("%d x Next ran out of samples: %v", pre, (*it).Err()))
 					continue
 				}
-				vt := (*it).Seek(c12T(i))
+				vt := (*it).Seek(seekT)
 				if vt == chunkenc.ValNone {
-					viol("merge-seek-lost", fmt.Sprintf("%d x Next then Seek(%d) found nothing: %v", pre, c12T(i), (*it).Err()))
+					viol("merge-seek-lost", fmt.Sprintf("%d x Next then Seek(%d) found nothing: %v", pre, seekT, (*it).Err()))
 					continue
 				}
 				res2, err := c12Drain(*it, vt, asFloat)
@@ -601,8 +689,8 @@ func c12mRun(r *vx.Run, st *c12Stats, al c12Alpha, seq []int, place []int, cut b
 			viol("merge-chunks-error", err.Error())
 			return
 		}
-		if len(res) != len(seq) {
-			viol("merge-chunks-count", fmt.Sprintf("merged chunks hold %d samples, want %d", len(res), len(seq)))
+		if len(res) != len(slots) {
+			viol("merge-chunks-count", fmt.Sprintf("merged chunks hold %d samples, want %d", len(res), len(slots)))
 			return
 		}
 		check("merge-chunks-full", res, nil)
@@ -612,6 +700,9 @@ func c12mRun(r *vx.Run, st *c12Stats, al c12Alpha, seq []int, place []int, cut b
 	}
 	if anyMarked {
 		st.casesMarked.Add(1)
+		if conflict {
+			st.conflictsMarked.Add(1)
+		}
 	}
 }
 
@@ -655,41 +746,103 @@ func TestVerifC12m(t *testing.T) {
 		var c c12mCase
 		r.LoadReplay(&c)
 		al, ok := alphas[c.Alpha]
-		if !ok || len(c.Place) == 0 {
+		if !ok || (len(c.Place) == 0 && len(c.Div) == 0) {
 			fmt.Println("replay is not for part m")
+			return
+		}
+		var it chunkenc.Iterator
+		if len(c.Div) > 0 {
+			content := make(c12mContent, len(c.Div))
+			for s := range c.Div {
+				for _, n := range c.Div[s] {
+					content[s] = append(content[s], histalpha.Index(al.atoms, n)) // "" -> -1
+				}
+			}
+			c12mRun(r, st, al, content, c.Cut, &it, func() c12mCase { return c })
 			return
 		}
 		var seq []int
 		for _, n := range c.Seq {
 			seq = append(seq, histalpha.Index(al.atoms, n))
 		}
-		var it chunkenc.Iterator
-		c12mRun(r, st, al, seq, c.Place, c.Cut, &it)
+		c12mRun(r, st, al, c12mPlaced(seq, c.Place), c.Cut, &it, func() c12mCase { return c })
 		return
 	}
 	c12SelfTest(t)
+	// A phase is either classical (every sequence of n atoms x every placement into the stores,
+	// all copies of a sample identical) or divergent (div > 0: div stores, each holding at each of
+	// the n time slots nothing or ANY atom, independently of the other stores - the whole product).
 	type phase struct {
 		alpha  string
 		n      int
 		maxPer int
+		div    int
 	}
 	var phases []phase
 	if r.Quick() {
 		phases = []phase{
-			{"full-int", 1, 3}, {"full-float", 1, 3}, {"full-int", 2, 3}, {"full-float", 2, 3},
-			{"small-int", 3, 2}, {"small-float", 3, 1},
+			{"full-int", 1, 3, 0}, {"full-float", 1, 3, 0}, {"full-int", 2, 3, 0}, {"full-float", 2, 3, 0},
+			{"small-int", 2, 0, 2}, {"small-float", 2, 0, 2}, {"tiny-int", 3, 0, 2}, {"tiny-int", 2, 0, 3},
+			{"small-int", 3, 2, 0}, {"small-float", 3, 1, 0},
 		}
 	} else {
 		phases = []phase{
-			{"full-int", 1, 3}, {"full-float", 1, 3}, {"full-int", 2, 3}, {"full-float", 2, 3},
-			{"small-int", 3, 3}, {"small-float", 3, 3},
-			{"full-int", 3, 1},
-			{"small-int", 4, 1},
+			{"full-int", 1, 3, 0}, {"full-float", 1, 3, 0}, {"full-int", 2, 3, 0}, {"full-float", 2, 3, 0},
+			{"small-int", 2, 0, 2}, {"small-float", 2, 0, 2}, {"tiny-int", 3, 0, 2}, {"tiny-float", 3, 0, 2},
+			{"tiny-int", 2, 0, 3}, {"tiny-float", 2, 0, 3},
+			{"small-int", 3, 3, 0}, {"small-float", 3, 3, 0},
+			{"full-int", 3, 1, 0},
+			{"small-int", 4, 1, 0},
+			{"tiny3-int", 3, 0, 3}, {"tiny-int", 4, 0, 2}, {"small10-int", 3, 0, 2},
 		}
 	}
 	var desc []string
 	for _, ph := range phases {
 		al := alphas[ph.alpha]
+		if ph.div > 0 {
+			dims := make([]int, ph.div*ph.n)
+			for i := range dims {
+				dims[i] = len(al.atoms) + 1
+			}
+			total := vx.ProductSize(dims)
+			var n, skipped atomic.Int64
+			r.ParallelN(total, func(i int64) {
+				ix := vx.ProductAt(dims, i, nil)
+				content := make(c12mContent, ph.div)
+				for s := range content {
+					content[s] = make([]int, ph.n)
+					empty := true
+					for k := range content[s] {
+						content[s][k] = ix[s*ph.n+k] - 1
+						empty = empty && content[s][k] < 0
+					}
+					if empty { // fewer stores: covered by the phases with fewer stores
+						skipped.Add(1)
+						return
+					}
+				}
+				var it chunkenc.Iterator
+				rp := func(cut bool) func() c12mCase {
+					return func() c12mCase { return c12mCase{Alpha: al.name, Div: content.names(al), Cut: cut} }
+				}
+				c12mRun(r, st, al, content, false, &it, rp(false))
+				if ph.n*ph.div <= 4 && !al.atoms[0].Float {
+					// also with every store cut into one-sample chunks (head protocol)
+					c12mRun(r, st, al, content, true, &it, rp(true))
+				}
+				k := n.Add(1)
+				r.SampleAt(k, func() any { return map[string]any{"part": "m", "case": rp(false)()} })
+			})
+			state := "complete"
+			if r.Expired() {
+				state = fmt.Sprintf("%d of %d contents", n.Load()+skipped.Load(), total)
+			}
+			desc = append(desc, fmt.Sprintf("divergent stores: %s (%d atoms), %d stores x %d time slots, each store holds nothing or any atom at each slot (%d contents, %d with an empty store skipped): %s", ph.alpha, len(al.atoms), ph.div, ph.n, total, skipped.Load(), state))
+			if r.Expired() {
+				break
+			}
+			continue
+		}
 		places := c12Places(ph.n, ph.maxPer)
 		total := vx.SeqCount(len(al.atoms), ph.n, ph.n)
 		var n atomic.Int64
@@ -697,14 +850,19 @@ func TestVerifC12m(t *testing.T) {
 			seq := vx.SeqAt(len(al.atoms), ph.n, ph.n, i, nil)
 			var it chunkenc.Iterator
 			for _, pl := range places {
-				c12mRun(r, st, al, seq, pl, false, &it)
+				rp := func(cut bool) func() c12mCase {
+					return func() c12mCase {
+						return c12mCase{Alpha: al.name, Seq: histalpha.Names(al.atoms, seq), Place: pl, Cut: cut}
+					}
+				}
+				c12mRun(r, st, al, c12mPlaced(seq, pl), false, &it, rp(false))
 				single := true
 				for _, m := range pl {
 					single = single && m&(m-1) == 0
 				}
 				if single && ph.n > 1 {
 					// one store per sample: also with every store cut into one-sample chunks
-					c12mRun(r, st, al, seq, pl, true, &it)
+					c12mRun(r, st, al, c12mPlaced(seq, pl), true, &it, rp(true))
 				}
 			}
 			k := n.Add(1)
@@ -727,11 +885,16 @@ func TestVerifC12m(t *testing.T) {
 	r.Count("merge_cases_with_a_marked_sample", int(st.casesMarked.Load()))
 	r.Count("not_counter_reset_markings_checked", int(st.marked.Load()))
 	r.Count("results_checked", int(st.queries.Load()))
+	r.Count("merge_cases_sources_disagree_on_a_value", int(st.conflicts.Load()))
+	r.Count("merge_cases_sources_disagree_with_a_marked_sample", int(st.conflictsMarked.Load()))
 	r.Set("phases_merge", desc)
-	r.Set("rule_merge", "part m: every sequence of counter atoms of one representation (int or float) with timestamps 1000,1100,...; every placement of the samples into non-empty subsets of three stores; each store encoded by storage.NewSeriesToChunkEncoder and, for placements with one store per sample, also as one-sample chunks cut with the head's previous-appender protocol (chunk headers NotCounterReset/CounterReset/unknown); sample-level merge = NewMergeSeriesSet(NewSeriesSetFromChunkSeriesSet(store)..., ChainedSeriesMerge) read by Next, by Seek(t_i) on a recycled iterator and by i x Next followed by Seek(t_i); chunk-level merge = NewMergeChunkSeriesSet(..., NewCompactingChunkSeriesMerger(ChainedSeriesMerge)). distinct_nontrivial counts the enumerated (sequence, placement) cases (distinct by construction) in which at least one returned sample was marked NotCounterReset, i.e. the oracle had something to verify.")
+	r.Set("rule_merge", "part m: every sequence of counter atoms of one representation (int or float) with timestamps 1000,1100,...; every placement of the samples into non-empty subsets of three stores; each store encoded by storage.NewSeriesToChunkEncoder and, for placements with one store per sample, also as one-sample chunks cut with the head's previous-appender protocol (chunk headers NotCounterReset/CounterReset/unknown); sample-level merge = NewMergeSeriesSet(NewSeriesSetFromChunkSeriesSet(store)..., ChainedSeriesMerge) read by Next, by Seek(t_i) on a recycled iterator and by i x Next followed by Seek(t_i); chunk-level merge = NewMergeChunkSeriesSet(..., NewCompactingChunkSeriesMerger(ChainedSeriesMerge)). Divergent-store phases: 2 or 3 stores, each holding at each time slot nothing or ANY atom independently of the others (the whole product; the stores may disagree on the value at a timestamp, the merged series has one sample per populated slot), read the same ways; merge_cases_sources_disagree_* count them. distinct_nontrivial counts the enumerated (sequence, placement) cases (distinct by construction) in which at least one returned sample was marked NotCounterReset, i.e. the oracle had something to verify.")
 	r.Set("rule", "see rule_db (part d) and rule_merge (part m)")
 	if !r.Expired() && (st.marked.Load() == 0 || len(st.hintsSeen.m) < 2) {
 		t.Fatalf("vacuous: %d markings checked, %d distinct hint patterns", st.marked.Load(), len(st.hintsSeen.m))
+	}
+	if !r.Expired() && st.conflictsMarked.Load() == 0 {
+		t.Fatal("vacuous: no merge of sources that disagree on a value returned a marked sample")
 	}
 }
 
@@ -796,11 +959,101 @@ type c12dCase struct {
 	Seq   []string `json:"seq"`
 	Split c12Split `json:"split"`
 	Cfg   c12dCfg  `json:"cfg"`
+	// Div (divergent sources; Seq and Split unused), see c12dDiv.
+	Div *c12dDiv `json:"div,omitempty"`
 }
 
+// c12dDiv is a series whose sources DISAGREE on values: per time slot the name of the atom ("" =
+// none) appended to the head in order (Head), held by the backfilled block B1 (Block), and
+// appended to the head a second time after all of Head (Rewrite: a late corrected write of a
+// timestamp that is older than the newest sample; it lands in the out-of-order head, which does
+// not compare it with the in-order chunk). Every source is an independent choice.
+type c12dDiv struct {
+	Head    []string `json:"head"`
+	Block   []string `json:"block"`
+	Rewrite []string `json:"rewrite"`
+}
+
+type c12dEv struct{ slot, atom int }
+
+// c12dItem is one series: the head appends in order, the contents of the two blocks, and the
+// number of distinct timestamps (want). seq/split or div say where it came from (replay).
 type c12dItem struct {
 	seq   []int
 	split c12Split
+	div   []int // digits of the divergent case: head, block, rewrite per slot (0 = none, a+1 = atom a)
+	head  []c12dEv
+	blk   [2][]c12dEv
+	want  int
+	// conflict: two sources hold different atoms at one timestamp
+	conflict bool
+}
+
+func c12dSplitItem(seq []int, sp c12Split) c12dItem {
+	it := c12dItem{seq: seq, split: sp, want: len(seq)}
+	for _, i := range sp.Order {
+		it.head = append(it.head, c12dEv{i, seq[i]})
+	}
+	for i, a := range sp.Assign {
+		if a > 0 {
+			it.blk[a-1] = append(it.blk[a-1], c12dEv{i, seq[i]})
+		}
+	}
+	return it
+}
+
+// c12dDivItem builds the series of the digit vector d (3n digits: head, block, rewrite per slot);
+// ok=false for vectors outside the space: an empty series, or a rewrite of a slot the head does
+// not hold or that is the head's newest one (an in-order duplicate, rejected by the appender).
+func c12dDivItem(d []int) (it c12dItem, ok bool) {
+	n := len(d) / 3
+	it.div = d
+	top := -1
+	for i := 0; i < n; i++ {
+		if d[i] > 0 {
+			top = i
+		}
+	}
+	for i := 0; i < n; i++ {
+		if d[i] > 0 {
+			it.head = append(it.head, c12dEv{i, d[i] - 1})
+		}
+		if d[n+i] > 0 {
+			it.blk[0] = append(it.blk[0], c12dEv{i, d[n+i] - 1})
+		}
+		if d[i] > 0 || d[n+i] > 0 {
+			it.want++
+		}
+		if (d[i] > 0 && d[n+i] > 0 && d[i] != d[n+i]) || (d[2*n+i] > 0 && (d[2*n+i] != d[i] || (d[n+i] > 0 && d[2*n+i] != d[n+i]))) {
+			it.conflict = true
+		}
+		if d[2*n+i] > 0 && (d[i] == 0 || i >= top) {
+			return it, false
+		}
+	}
+	for i := 0; i < n; i++ {
+		if d[2*n+i] > 0 {
+			it.head = append(it.head, c12dEv{i, d[2*n+i] - 1})
+		}
+	}
+	return it, it.want > 0
+}
+
+// c12dDivs lists the valid digit vectors of the divergent space over nAtoms atoms and n slots, in
+// product order (simplest first).
+func c12dDivs(nAtoms, n int) [][]int {
+	dims := make([]int, 3*n)
+	for i := range dims {
+		dims[i] = nAtoms + 1
+	}
+	var out [][]int
+	for i := int64(0); i < vx.ProductSize(dims); i++ {
+		d := vx.ProductAt(dims, i, nil)
+		if _, ok := c12dDivItem(d); ok {
+			out = append(out, d)
+		}
+	}
+	return out
 }
 
 type c12dBatch struct {
@@ -814,11 +1067,30 @@ type c12dBatch struct {
 }
 
 func (b *c12dBatch) replay(k int) any {
-	return c12dCase{Alpha: b.al.name, Seq: histalpha.Names(b.al.atoms, b.items[k].seq), Split: b.items[k].split, Cfg: b.cfg}
+	it := b.items[k]
+	if it.div != nil {
+		n := len(it.div) / 3
+		name := func(d []int) []string {
+			out := make([]string, len(d))
+			for i, x := range d {
+				if x > 0 {
+					out[i] = b.al.atoms[x-1].Name
+				}
+			}
+			return out
+		}
+		return c12dCase{Alpha: b.al.name, Cfg: b.cfg, Div: &c12dDiv{Head: name(it.div[:n]), Block: name(it.div[n : 2*n]), Rewrite: name(it.div[2*n:])}}
+	}
+	return c12dCase{Alpha: b.al.name, Seq: histalpha.Names(b.al.atoms, it.seq), Split: it.split, Cfg: b.cfg}
 }
 
 func (b *c12dBatch) viol(k int, sig, msg string) {
 	it := b.items[k]
+	if it.div != nil {
+		d := b.replay(k).(c12dCase).Div
+		b.r.Violation(sig, fmt.Sprintf("series with divergent sources (atom per time slot) head %q block %q rewritten-late %q (cfg %+v): %s", d.Head, d.Block, d.Rewrite, b.cfg, msg), b.replay(k))
+		return
+	}
 	b.r.Violation(sig, fmt.Sprintf("series %v split %+v (cfg %+v): %s", histalpha.Names(b.al.atoms, it.seq), it.split, b.cfg, msg), b.replay(k))
 }
 
@@ -886,8 +1158,8 @@ func (b *c12dBatch) stage(db *DB, stage string) bool {
 	}
 	for k := range b.items {
 		b.st.queries.Add(1)
-		if len(full[k]) != b.n {
-			b.viol(k, "db-"+stage+"-sample-count", fmt.Sprintf("full-range result has %d samples, want %d (C12 needs the complete series; see C01/C11)", len(full[k]), b.n))
+		if len(full[k]) != b.items[k].want {
+			b.viol(k, "db-"+stage+"-sample-count", fmt.Sprintf("full-range result has %d samples, want %d (C12 needs the complete series; see C01/C11)", len(full[k]), b.items[k].want))
 			continue
 		}
 		what, msg, marked := c12Check(full[k], nil)
@@ -976,9 +1248,9 @@ func (b *c12dBatch) run() {
 	for k := range lsets {
 		lsets[k] = c12Labels(k)
 	}
-	appendOne := func(app storage.Appender, k, i int) error {
-		h, fh := b.al.atoms[b.items[k].seq[i]].Fresh()
-		_, err := app.AppendHistogram(0, lsets[k], b.cfg.t(i), h, fh)
+	appendOne := func(app storage.Appender, k int, ev c12dEv) error {
+		h, fh := b.al.atoms[ev.atom].Fresh()
+		_, err := app.AppendHistogram(0, lsets[k], b.cfg.t(ev.slot), h, fh)
 		return err
 	}
 	// blocks B1, B2 (written like a backfill, outside the DB directory, moved in later)
@@ -993,9 +1265,7 @@ func (b *c12dBatch) run() {
 	for store := 1; store <= 2; store++ {
 		any := false
 		for _, it := range b.items {
-			for _, a := range it.split.Assign {
-				any = any || a == store
-			}
+			any = any || len(it.blk[store-1]) > 0
 		}
 		if !any {
 			continue
@@ -1009,12 +1279,9 @@ func (b *c12dBatch) run() {
 			defer w.Close()
 			app := w.Appender(ctx)
 			for k, it := range b.items {
-				for i, a := range it.split.Assign {
-					if a != store {
-						continue
-					}
-					if err := appendOne(app, k, i); err != nil {
-						b.viol(k, "db-block-append-error", fmt.Sprintf("block %d sample %d: %v", store, i, err))
+				for _, ev := range it.blk[store-1] {
+					if err := appendOne(app, k, ev); err != nil {
+						b.viol(k, "db-block-append-error", fmt.Sprintf("block %d sample %d: %v", store, ev.slot, err))
 						failed = true
 					}
 				}
@@ -1060,18 +1327,18 @@ func (b *c12dBatch) run() {
 	defer db.Close()
 	db.DisableCompactions()
 	// head: round r appends, for every series, the r-th head sample of its append order
-	for rnd := 0; rnd < b.n; rnd++ {
+	for rnd := 0; ; rnd++ {
 		app := db.Appender(ctx)
 		n := 0
 		for k, it := range b.items {
-			if rnd >= len(it.split.Order) {
+			if rnd >= len(it.head) {
 				continue
 			}
 			n++
 			var err error
-			p, stack := vx.Guard(func() { err = appendOne(app, k, it.split.Order[rnd]) })
+			p, stack := vx.Guard(func() { err = appendOne(app, k, it.head[rnd]) })
 			if p != nil || err != nil {
-				b.viol(k, "db-head-append-error", fmt.Sprintf("round %d sample %d: %v %v\n%s", rnd, it.split.Order[rnd], p, err, c12Trim(stack)))
+				b.viol(k, "db-head-append-error", fmt.Sprintf("round %d sample %d: %v %v\n%s", rnd, it.head[rnd].slot, p, err, c12Trim(stack)))
 				_ = app.Rollback()
 				return
 			}
@@ -1123,9 +1390,15 @@ func (b *c12dBatch) run() {
 		}
 	}
 	b.st.cases.Add(int64(len(b.items)))
-	for _, m := range b.mark {
+	for k, m := range b.mark {
+		if b.items[k].conflict {
+			b.st.conflicts.Add(1)
+		}
 		if m {
 			b.st.casesMarked.Add(1)
+			if b.items[k].conflict {
+				b.st.conflictsMarked.Add(1)
+			}
 		}
 	}
 }
@@ -1139,15 +1412,30 @@ func TestVerifC12d(t *testing.T) {
 		var c c12dCase
 		r.LoadReplay(&c)
 		al, ok := alphas[c.Alpha]
-		if !ok || len(c.Split.Assign) == 0 {
+		if !ok || (len(c.Split.Assign) == 0 && c.Div == nil) {
 			fmt.Println("replay is not for part d")
+			return
+		}
+		if c.Div != nil {
+			var d []int
+			for _, l := range [][]string{c.Div.Head, c.Div.Block, c.Div.Rewrite} {
+				for _, n := range l {
+					d = append(d, histalpha.Index(al.atoms, n)+1) // "" -> 0
+				}
+			}
+			it, ok := c12dDivItem(d)
+			if !ok || len(c.Div.Block) != len(c.Div.Head) || len(c.Div.Rewrite) != len(c.Div.Head) {
+				t.Fatal("replay: not a case of the divergent space")
+			}
+			b := &c12dBatch{r: r, st: st, al: al, n: len(c.Div.Head), cfg: c.Cfg, items: []c12dItem{it}}
+			b.run()
 			return
 		}
 		var seq []int
 		for _, n := range c.Seq {
 			seq = append(seq, histalpha.Index(al.atoms, n))
 		}
-		b := &c12dBatch{r: r, st: st, al: al, n: len(seq), cfg: c.Cfg, items: []c12dItem{{seq, c.Split}}}
+		b := &c12dBatch{r: r, st: st, al: al, n: len(seq), cfg: c.Cfg, items: []c12dItem{c12dSplitItem(seq, c.Split)}}
 		b.run()
 		return
 	}
@@ -1157,23 +1445,29 @@ func TestVerifC12d(t *testing.T) {
 		n      int
 		stores int // 3: head + two blocks; 2: head + one block; 1: head only
 		cfgs   []c12dCfg
+		// div: instead of sequences x splits, the divergent space (c12dDivs): head, block B1 and late
+		// rewrites each hold nothing or ANY atom per time slot, independently (stores unused)
+		div bool
 	}
 	cfg := func(cap int64, cut int) c12dCfg { return c12dCfg{OOOCap: cap, Cut: cut} }
 	var phases []phase
 	if r.Quick() {
 		phases = []phase{
-			{"small-int", 1, 3, []c12dCfg{cfg(32, 0)}}, {"small-float", 1, 3, []c12dCfg{cfg(32, 0)}},
-			{"small-int", 2, 3, []c12dCfg{cfg(32, 0), cfg(32, 1)}}, {"small-float", 2, 3, []c12dCfg{cfg(32, 0), cfg(32, 1)}},
-			{"small10-int", 3, 3, []c12dCfg{cfg(32, 0), cfg(32, 2), cfg(1, 0)}},
-			{"small10-float", 3, 3, []c12dCfg{cfg(32, 2)}},
+			{"small-int", 1, 3, []c12dCfg{cfg(32, 0)}, false}, {"small-float", 1, 3, []c12dCfg{cfg(32, 0)}, false},
+			{"small-int", 2, 3, []c12dCfg{cfg(32, 0), cfg(32, 1)}, false}, {"small-float", 2, 3, []c12dCfg{cfg(32, 0), cfg(32, 1)}, false},
+			{"tiny-int", 2, 0, []c12dCfg{cfg(32, 0)}, true},
+			{"small10-int", 3, 3, []c12dCfg{cfg(32, 0), cfg(32, 2), cfg(1, 0)}, false},
+			{"small10-float", 3, 3, []c12dCfg{cfg(32, 2)}, false},
 		}
 	} else {
 		all3 := []c12dCfg{cfg(32, 0), cfg(32, 1), cfg(32, 2), cfg(1, 0), cfg(1, 2)}
 		phases = []phase{
-			{"small-int", 1, 3, []c12dCfg{cfg(32, 0)}}, {"small-float", 1, 3, []c12dCfg{cfg(32, 0)}},
-			{"full-int", 2, 3, []c12dCfg{cfg(32, 0), cfg(32, 1), cfg(1, 0)}}, {"full-float", 2, 3, []c12dCfg{cfg(32, 1)}},
-			{"small-int", 3, 3, all3}, {"small-float", 3, 3, []c12dCfg{cfg(32, 0), cfg(32, 2)}},
-			{"small10-int", 4, 1, []c12dCfg{cfg(32, 2)}},
+			{"small-int", 1, 3, []c12dCfg{cfg(32, 0)}, false}, {"small-float", 1, 3, []c12dCfg{cfg(32, 0)}, false},
+			{"full-int", 2, 3, []c12dCfg{cfg(32, 0), cfg(32, 1), cfg(1, 0)}, false}, {"full-float", 2, 3, []c12dCfg{cfg(32, 1)}, false},
+			{"tiny-int", 2, 0, []c12dCfg{cfg(32, 0), cfg(32, 1), cfg(1, 0)}, true}, {"tiny-float", 2, 0, []c12dCfg{cfg(32, 0)}, true},
+			{"small-int", 3, 3, all3, false}, {"small-float", 3, 3, []c12dCfg{cfg(32, 0), cfg(32, 2)}, false},
+			{"tiny3-int", 3, 0, []c12dCfg{cfg(32, 0), cfg(32, 2)}, true},
+			{"small10-int", 4, 1, []c12dCfg{cfg(32, 2)}, false},
 		}
 	}
 	const batchSize = 8192
@@ -1184,9 +1478,16 @@ func TestVerifC12d(t *testing.T) {
 	}
 	var jobs []job
 	splitsOf := make([][]c12Split, len(phases))
+	divsOf := make([][][]int, len(phases))
 	for pi, ph := range phases {
-		splitsOf[pi] = c12Splits(ph.n, ph.stores)
-		total := vx.SeqCount(len(alphas[ph.alpha].atoms), ph.n, ph.n) * int64(len(splitsOf[pi]))
+		var total int64
+		if ph.div {
+			divsOf[pi] = c12dDivs(len(alphas[ph.alpha].atoms), ph.n)
+			total = int64(len(divsOf[pi]))
+		} else {
+			splitsOf[pi] = c12Splits(ph.n, ph.stores)
+			total = vx.SeqCount(len(alphas[ph.alpha].atoms), ph.n, ph.n) * int64(len(splitsOf[pi]))
+		}
 		for from := int64(0); from < total; from += batchSize {
 			for _, c := range ph.cfgs {
 				jobs = append(jobs, job{pi, from, min(from+batchSize, total), c})
@@ -1205,8 +1506,13 @@ func TestVerifC12d(t *testing.T) {
 		sp := splitsOf[j.ph]
 		b := &c12dBatch{r: r, st: st, al: al, n: ph.n, cfg: j.cfg}
 		for c := j.from; c < j.to; c++ {
+			if ph.div {
+				it, _ := c12dDivItem(divsOf[j.ph][c])
+				b.items = append(b.items, it)
+				continue
+			}
 			seq := vx.SeqAt(len(al.atoms), ph.n, ph.n, c/int64(len(sp)), nil)
-			b.items = append(b.items, c12dItem{seq, sp[c%int64(len(sp))]})
+			b.items = append(b.items, c12dSplitItem(seq, sp[c%int64(len(sp))]))
 		}
 		b.run()
 		phaseDone[j.ph].Add(1)
@@ -1225,6 +1531,10 @@ func TestVerifC12d(t *testing.T) {
 		if phaseDone[pi].Load() != jobsPer[pi] {
 			state = fmt.Sprintf("%d of %d batches", phaseDone[pi].Load(), jobsPer[pi])
 		}
+		if ph.div {
+			desc = append(desc, fmt.Sprintf("divergent sources: %s (%d atoms), %d time slots; in-order head, block B1 and late rewrite (OOO head) each hold nothing or any atom per slot (%d series) x configurations %v: %s", ph.alpha, len(alphas[ph.alpha].atoms), ph.n, len(divsOf[pi]), ph.cfgs, state))
+			continue
+		}
 		desc = append(desc, fmt.Sprintf("%s (%d atoms) length %d x %d splits over %d stores x configurations (OOO chunk capacity, chunk-range cut before sample) %v: %s", ph.alpha, len(alphas[ph.alpha].atoms), ph.n, len(splitsOf[pi]), ph.stores, ph.cfgs, state))
 	}
 	r.Count("evaluations", int(st.cases.Load()))
@@ -1233,11 +1543,16 @@ func TestVerifC12d(t *testing.T) {
 	r.Count("db_cases_with_a_marked_sample", int(st.casesMarked.Load()))
 	r.Count("not_counter_reset_markings_checked", int(st.marked.Load()))
 	r.Count("results_checked", int(st.queries.Load()))
+	r.Count("db_cases_sources_disagree_on_a_value", int(st.conflicts.Load()))
+	r.Count("db_cases_sources_disagree_with_a_marked_sample", int(st.conflictsMarked.Load()))
 	r.Set("phases_db", desc)
-	r.Set("rule_db", "part d: every sequence of counter atoms of one representation is one series (timestamps 1900,1910,...) of a real tsdb.DB (up to 8192 series per DB); every split assigns each sample to the head or to one of two backfilled blocks (written with BlockWriter, moved into the DB directory, reloadBlocks) and every append order of the head samples (a sample older than an earlier-appended one lands in the out-of-order head). Configurations: OOO chunk capacity 32 or 1; optionally a head chunk-range boundary before one of the samples (the head and the block writers then cut a chunk by time and compute its header against the previous chunk). Reads: DB.Querier full range (integer histograms also through AtFloatHistogram at the live stage), DB.Querier for every proper sub-range [t_i,t_j] (through AtFloatHistogram), DB.ChunkQuerier full range; at five stages: live, after CompactOOOHead, after Compact (vertical merge of the overlapping blocks), after CompactHead, after a final Compact. distinct_nontrivial counts the enumerated (sequence, split, configuration) cases (distinct by construction) in which at least one returned sample was marked NotCounterReset.")
+	r.Set("rule_db", "part d: every sequence of counter atoms of one representation is one series (timestamps 1900,1910,...) of a real tsdb.DB (up to 8192 series per DB); every split assigns each sample to the head or to one of two backfilled blocks (written with BlockWriter, moved into the DB directory, reloadBlocks) and every append order of the head samples (a sample older than an earlier-appended one lands in the out-of-order head). Configurations: OOO chunk capacity 32 or 1; optionally a head chunk-range boundary before one of the samples (the head and the block writers then cut a chunk by time and compute its header against the previous chunk). Reads: DB.Querier full range (integer histograms also through AtFloatHistogram at the live stage), DB.Querier for every proper sub-range [t_i,t_j] (through AtFloatHistogram), DB.ChunkQuerier full range; at five stages: live, after CompactOOOHead, after Compact (vertical merge of the overlapping blocks), after CompactHead, after a final Compact. Divergent-source phases: per time slot the in-order head, the block B1 and a late second head append of the same timestamp (accepted into the OOO head unless it is the newest head sample) each hold nothing or ANY atom, independently (the whole product; sources may disagree on the value at a timestamp), same reads and stages; db_cases_sources_disagree_* count them. distinct_nontrivial counts the enumerated (sequence, split, configuration) cases (distinct by construction) in which at least one returned sample was marked NotCounterReset.")
 	r.Set("rule", "see rule_db (part d) and rule_merge (part m)")
 	r.Assume("C12 presupposes complete results (C01/C11): a series whose full-range result misses samples is reported as db-*-sample-count and not examined further")
 	if !r.Expired() && (st.marked.Load() == 0 || len(st.hintsSeen.m) < 2) {
 		t.Fatalf("vacuous: %d markings checked, %d distinct hint patterns", st.marked.Load(), len(st.hintsSeen.m))
+	}
+	if !r.Expired() && st.conflictsMarked.Load() == 0 {
+		t.Fatal("vacuous: no series whose sources disagree on a value returned a marked sample")
 	}
 }
